@@ -123,6 +123,12 @@ def run(chk, replay=None):
             elif r < 0.25:    # unknown element
                 text = text.replace('<plus/>', '<foo/>', 1)
             cases.append((text, ext, typed))
+        # NLA blocks: one or two systems of several equations each, their equations interleaved, some unknowns marked external
+        import nlasys as N
+        for i in range(max(6, n // 4)):
+            dd = N.gen(rng)
+            if dd is not None:
+                cases.append((dd['text'], sum([['c', nm] for nm in dd['ext']], []), True))
         cases.append(('', [], True))      # no model at all
     wd = tempfile.mkdtemp(prefix='c17-')
     try:
